@@ -416,7 +416,13 @@ func (b *Bundle) WriteArchive(w io.Writer) error {
 func ExtractArchive(r io.Reader, targetDir string) (*Bundle, error) {
 	// A bundle archive is just a slug archive created over a bundle
 	// directory, so we can use the normal unpack function to deal with it.
-	err := slug.Unpack(r, targetDir)
+	// Unpack wants its destination absolute: it judges where a symlink of the
+	// archive leads by the destination's spelling.
+	targetDir, err := filepath.Abs(targetDir)
+	if err != nil {
+		return nil, fmt.Errorf("cannot resolve target directory: %w", err)
+	}
+	err = slug.Unpack(r, targetDir)
 	if err != nil {
 		return nil, err
 	}
